@@ -42,8 +42,8 @@ ASSUMPTIONS = [
     "entries must be polychord entries with the same roots in both forms",
     "'accepted by chord construction' = from_shorthand returns without raising (the whole name and each '|' half)",
     "'contains all the given notes' is judged on note names (string equality), as the library represents notes",
-    "2-note answer: a one-element list holding the library's own interval name for the pair (interval naming itself "
-    "is C03's subject); only the interval number word is checked independently",
+    "2-note answer: a one-element list holding the library's own long interval name for the pair, in the long and in the "
+    "shorthand form alike (interval naming itself is C03's subject); only the interval number word is checked independently",
     "determine() is called with default flags in recognise/three; the total clause also runs the four "
     "no_inversions/no_polychords combinations",
 ]
@@ -356,10 +356,7 @@ def run_trivial(case):
                 S.problem(site, chord, got)
         else:
             name, e2 = call(intervals.determine, chord[0], chord[1])
-            names = [name]
-            if flag:
-                sname, _ = call(intervals.determine, chord[0], chord[1], True)
-                names.append(sname)
+            names = [name]            # in both forms: the interval's (long) name is the trivial answer the library documents by its code
             number = P.QUALITY_NAMES[(P.letter_index(chord[1]) - P.letter_index(chord[0])) % 7]
             if not (isinstance(got, list) and len(got) == 1 and got[0] in names):
                 S.problem(site, "[%r]" % (name,), got)
